@@ -272,6 +272,16 @@ func runC16(c *Ctx) {
 					continue
 				}
 				for _, pc := range pth.Conds {
+					// slices.Equal(a, b) taken as false: the lists differ in length or at some position
+					if call, ok := ast.Unparen(pc.Expr).(*ast.CallExpr); ok && !pc.Val && len(call.Args) == 2 {
+						if fn := calleeOf(p.TypesInfo, call); fn != nil && fullName(fn) == "slices.Equal" {
+							a, b := norm(call.Args[0]), norm(call.Args[1])
+							if a != "" && a == b {
+								compared["len("+a+")"] = true
+								compared[a+"[i]"] = true
+							}
+						}
+					}
 					be, ok := ast.Unparen(pc.Expr).(*ast.BinaryExpr)
 					if !ok {
 						continue
